@@ -12,7 +12,8 @@ import RepeVerif.Gen.Svs
 > instead of an end marker.
 
 clause → theorem
-* facts read off `value_stream.rs` are the ones the theorems need ........ `source_facts` (+ `sinkOk`, `nextOk`, `wireOk`)
+* facts read off `value_stream.rs` are the ones the theorems need ........ `source_facts` (+ `sinkOk`, `nextOk`, `wireOk`),
+                                                                            `pull_source_form`, `pull_sequence_source`
 * chunking loses/duplicates/reorders nothing, any write fragmentation .... `sink_concat`, `sink_chunks_full`,
                                                                             `sink_fragmentation_independent`
 * `produce` ⇒ `Chunk* ++ [End | Fail e]` (bare close when it vanishes) .... `produce_shape`
@@ -178,6 +179,20 @@ theorem vanished_never_last (cs : List Bytes) (dn : Bool) :
   exact feedRun_fresh_vanish cs
 
 example : pullAll 3 ⟨[.chunk [7]], none, false⟩ = [.error vanished] := by rfl
+
+/-- `Session::pull` and `Session::recv` arm by arm, as `extract/svs.py` read them (an arm it does not
+recognise becomes `.other`, which this theorem does not accept). -/
+theorem pull_source_form : Gen.svsPull = specPull := by decide
+
+/-- `pull_sequence`, `fail_never_last` and `vanished_never_last` for the arms read off the source. -/
+theorem pull_sequence_source (cs : List Bytes) (e : String) (dn : Bool) :
+    pullAllA Gen.svsPull (cs.length + 2) ⟨cs.map .chunk ++ [.end], none, dn⟩ = (pullsOf cs).map .ok ∧
+    pullAllA Gen.svsPull (cs.length + 2) ⟨cs.map .chunk ++ [.fail e], none, dn⟩ = cs.dropLast.map nonlast ++ [.error e] ∧
+    pullAllA Gen.svsPull (cs.length + 1) ⟨cs.map .chunk, none, dn⟩ = cs.dropLast.map nonlast ++ [.error vanished] := by
+  rw [pull_source_form]
+  simp only [pullAllA_spec]
+  exact ⟨(pull_sequence cs dn).1, (fail_never_last cs e dn).1, vanished_never_last cs dn⟩
+
 
 /-! ## the bounded channel -/
 
